@@ -273,6 +273,57 @@ example : (runSchedule (init abGraph [[3]]) (List.replicate 38 0)).map
     some ([(3, some 2)], .ptr (.struct 0 [.ptr (.struct 1 [.cut])])) := by
   rfl
 
+/-! ### outcomes -/
+
+mutual
+/-- does the unfolding mention a type no codec exists for? -/
+def _root_.Registry.Tree.hasBad : Tree → Bool
+  | .bad => true
+  | .ptr t | .slice t => t.hasBad
+  | .map k v => k.hasBad || v.hasBad
+  | .struct _ fs => hasBadL fs
+  | _ => false
+def _root_.Registry.hasBadL : List Tree → Bool
+  | [] => false
+  | t :: r => t.hasBad || hasBadL r
+end
+
+theorem hasBadL_map_false {α} (f : α → Tree) (l : List α) (h : ∀ a ∈ l, (f a).hasBad = false) :
+    hasBadL (l.map f) = false := by
+  induction l with
+  | nil => rfl
+  | cons a r ih =>
+    simp only [List.map_cons, hasBadL, Bool.or_eq_false_iff]
+    exact ⟨h a (by simp), ih fun b hb => h b (by simp [hb])⟩
+
+/-- a codec never unfolds to `bad`. -/
+theorem unfoldC_noBad (h : Heap) : ∀ (n c : Nat), (unfoldC h n c).hasBad = false := by
+  intro n
+  induction n with
+  | zero => intro c; rfl
+  | succ n ih =>
+    intro c
+    unfold unfoldC
+    split <;> simp only [Tree.hasBad, ih, Bool.or_self]
+    exact hasBadL_map_false _ _ fun a _ => ih a
+
+/-- One direction of "the outcome agrees with the sequential run": a call for `τ`
+can only SUCCEED — under any interleaving — if no type without a codec is
+reachable from `τ` in the type graph, to any depth; so whenever the sequential
+call fails because such a type is reachable, every concurrent call fails too,
+whatever the other goroutines have built or cached meanwhile. -/
+theorem success_means_no_bad (hr : Reach (init g reqs d) s) {i τ c : Nat}
+    (h : (τ, some c) ∈ (s.threads i).results) (n : Nat) : (unfoldT g n τ).hasBad = false := by
+  rw [← result_shape hr h n]
+  exact unfoldC_noBad s.heap n c
+
+/-- … and nothing published in the shared registry is for a type from which a
+type without a codec is reachable. -/
+theorem registry_no_bad (hr : Reach (init g reqs d) s) {ty c : Nat} (h : (ty, c) ∈ s.registry) (n : Nat) :
+    (unfoldT g n ty).hasBad = false := by
+  rw [← registry_shape hr ty c h n]
+  exact unfoldC_noBad s.heap n c
+
 /-! ### recorded traces -/
 
 /-- a recorded trace that the model follows is an execution of the protocol. -/
@@ -325,12 +376,10 @@ example :
 
 /-
   NOT PROVED:
-  * agreement of the OUTCOME (error vs. codec) with the sequential run: the
-    theorems above compare the codecs of two calls that both succeeded.  What
-    follows from `result_shape` is that a call can only succeed if no `bad`
-    type is reachable from `τ` (the unfolding of a typed codec contains no
-    `Tree.bad`), but that a sequential call on such a `τ` succeeds is a
-    termination statement, and termination of the construction is not claimed.
+  * the other direction of OUTCOME agreement: `success_means_no_bad` shows a call
+    can only succeed if no `bad` type is reachable from `τ`; that a call on a
+    `τ` without reachable `bad` types does not fail, and that it returns at all,
+    are progress statements, and termination of the construction is not claimed.
   * Marshal / Unmarshal themselves are not modelled beyond the walk `use`.
 -/
 
